@@ -147,4 +147,912 @@ theorem inv_mkAtoms {κ : Nat → String} {s : State} (h : InvK κ s) (natoms : 
     | rw [post_bind_pure]
     | split)
 
+/-! ### indices -/
+
+theorem normInt_lt (n : Nat) (i : Int) (p : Nat) (h : normInt n i = some p) : p < n := by
+  unfold normInt at h
+  split at h
+  · injection h with h; omega
+  · split at h
+    · injection h with h; omega
+    · cases h
+
+theorem sliceSel_lt (n : Nat) (st sp : Option Int) (k : Int) : ∀ p ∈ sliceSel n st sp k, p < n := by
+  intro p hp
+  unfold sliceSel at hp
+  simp only [] at hp
+  split at hp
+  · exact List.mem_range.mp (List.mem_filter.mp hp).1
+  · exact List.mem_range.mp (List.mem_filter.mp (List.mem_reverse.mp hp)).1
+
+theorem maskSel_lt (n : Nat) (m : List Bool) : ∀ p ∈ maskSel n m, p < n := by
+  intro p hp
+  exact List.mem_range.mp (List.mem_filter.mp hp).1
+
+/-- every position selected by an index is a position of the axis; integer indices select one row. -/
+theorem resolve_ok (n : Nat) (ix : Index) (sel : Sel) (h : resolve n ix = .ok sel) :
+    (∀ p ∈ sel.pos, p < n) ∧ SelOK sel := by
+  cases ix with
+  | int i =>
+    simp only [resolve] at h
+    split at h
+    · rename_i p hp
+      injection h with h; subst h
+      refine ⟨?_, fun _ => rfl⟩
+      intro q hq; simp at hq; subst hq; exact normInt_lt n i _ hp
+    · cases h
+  | slice st sp step =>
+    simp only [resolve] at h
+    split at h
+    · cases h
+    · injection h with h; subst h
+      exact ⟨sliceSel_lt n st sp _, fun hc => by simp at hc⟩
+  | list l =>
+    simp only [resolve] at h
+    injection h with h; subst h
+    refine ⟨?_, fun hc => by simp at hc⟩
+    intro p hp
+    simp only [List.mem_filterMap] at hp
+    obtain ⟨i, _, hi⟩ := hp
+    exact normInt_lt n i p hi
+  | mask m =>
+    simp only [resolve] at h
+    split at h
+    · injection h with h; subst h
+      exact ⟨maskSel_lt n m, fun hc => by simp at hc⟩
+    · split at h
+      · injection h with h; subst h
+        exact ⟨by intro p hp; simp at hp, fun hc => by simp at hc⟩
+      · cases h
+
+/-! ### `indexGet` -/
+
+/-- the sub-array `a[sel]` seen as a view. -/
+def subArr (a : Arr) (sel : Sel) : Arr := ⟨a.buf, sel.pos.map (fun p => a.idx[p]?.getD 0)⟩
+
+theorem subArr_valid {s : State} {a : Arr} (hv : ArrValid s a) (sel : Sel) (hpos : ∀ p ∈ sel.pos, p < a.idx.length) :
+    ArrValid s (subArr a sel) := by
+  refine ⟨hv.1, ?_⟩
+  intro i hi
+  simp only [subArr, List.mem_map] at hi
+  obtain ⟨p, hp, rfl⟩ := hi
+  have hlt := hpos p hp
+  simp only [List.getElem?_eq_getElem hlt, Option.getD_some]
+  exact hv.2 _ (List.getElem_mem hlt)
+
+theorem subArr_mem (a : Arr) (sel : Sel) (hpos : ∀ p ∈ sel.pos, p < a.idx.length) :
+    ∀ i ∈ (subArr a sel).idx, i ∈ a.idx := by
+  intro i hi
+  simp only [subArr, List.mem_map] at hi
+  obtain ⟨p, hp, rfl⟩ := hi
+  have hlt := hpos p hp
+  simp only [List.getElem?_eq_getElem hlt, Option.getD_some]
+  exact List.getElem_mem hlt
+
+theorem arrRows_bufOK {κ : Nat → String} {s : State} (h : InvK κ s) {a : Arr} (hv : ArrValid s a) :
+    BufOK ⟨arrDt s a, arrTrail s a, arrRows s a⟩ := by
+  have hb := h.buf_ok a.buf
+  constructor
+  · intro r hr
+    obtain ⟨i, _, _, hmem⟩ := arrRows_mem hv r hr
+    exact hb.width r hmem
+  · intro r hr c hc
+    obtain ⟨i, _, _, hmem⟩ := arrRows_mem hv r hr
+    exact hb.typed r hmem c hc
+
+theorem indexGet_cases (a : Arr) (sel : Sel) (s : State) :
+    (∃ e, indexGet a sel s = (.error e, s)) ∨
+    (sel.view = true ∧ indexGet a sel s = (.ok (subArr a sel), s)) ∨
+    (sel.view = false ∧ indexGet a sel s = (.ok ⟨s.heap.length, List.range sel.pos.length⟩,
+      { s with heap := s.heap ++ [⟨arrDt s a, arrTrail s a, arrRows s (subArr a sel)⟩] })) := by
+  unfold indexGet
+  split
+  · left; exact ⟨_, rfl⟩
+  · simp only []
+    split
+    · rename_i hview
+      right; left; exact ⟨hview, rfl⟩
+    · rename_i hview
+      right; right
+      refine ⟨by simpa using hview, ?_⟩
+      rw [alloc_eq]
+      simp [arrRows, subArr]
+
+/-- `arr[sel]`: a view of the same buffer or a fresh copy filed under the same key. -/
+theorem inv_indexGet {κ : Nat → String} {s : State} (h : InvK κ s) (a : Arr) (sel : Sel) (key : String)
+    (hv : ArrValid s a) (hk : κ a.buf = key) (hpos : ∀ p ∈ sel.pos, p < a.idx.length) :
+    Post (indexGet a sel) s (fun r s' => ∃ κ', InvK κ' s' ∧ Ext κ s κ' s' ∧ s'.objs = s.objs ∧ s'.syss = s.syss ∧
+      ∀ q, r = .ok q → ArrValid s' q ∧ κ' q.buf = key ∧ q.idx.length = sel.pos.length) := by
+  rcases indexGet_cases a sel s with ⟨e, he⟩ | ⟨_, he⟩ | ⟨_, he⟩
+  · exact Post.of_eq _ _ he ⟨κ, h, Ext.refl κ s, rfl, rfl, fun q hq => by cases hq⟩
+  · apply Post.of_eq _ _ he
+    refine ⟨κ, h, Ext.refl κ s, rfl, rfl, ?_⟩
+    intro q hq
+    injection hq with hq; subst hq
+    exact ⟨subArr_valid hv sel hpos, hk, by simp [subArr]⟩
+  · apply Post.of_eq _ _ he
+    have hsub := subArr_valid hv sel hpos
+    have hbuf : BufOK ⟨arrDt s a, arrTrail s a, arrRows s (subArr a sel)⟩ := arrRows_bufOK h hsub
+    obtain ⟨hinv1, hext1⟩ := inv_alloc h _ hbuf key
+    refine ⟨_, hinv1, hext1, rfl, rfl, ?_⟩
+    intro q hq
+    injection hq with hq; subst hq
+    refine ⟨⟨by simp, ?_⟩, by simp [upd], by simp⟩
+    intro i hi
+    rw [buf_append_eq]
+    simpa [arrRows, subArr] using hi
+
+/-! ### `__getitem__` -/
+
+/-- a constructor call made after steps that created no object. -/
+theorem Made.after {κ κ1 : Nat → String} {s s1 s2 : State} {o : Nat} (hext : Ext κ s κ1 s1)
+    (hobjs : s1.objs.length = s.objs.length) (hsys : s1.syss = s.syss) (hm : Made κ1 s1 (.ok o) s2) :
+    Made κ s (.ok o) s2 := by
+  obtain ⟨κ2, hinv2, hext2, hsys2, _, hok⟩ := hm
+  refine ⟨κ2, hinv2, hext.trans hext2, by rw [hsys2, hsys], ?_, ?_⟩
+  · intro e he; cases he
+  intro o' ho'
+  obtain ⟨h1, h2, h3⟩ := hok o' ho'
+  exact ⟨by rw [h1, hobjs], by rw [h2, hobjs], h3⟩
+
+/-- the sources handed to `Atoms(**view)`: every array is valid and filed under its own key. -/
+def ViewsOK (κ : Nat → String) (s : State) (views : List PropRef) : Prop :=
+  ∀ q ∈ views, SrcOK κ s q.key (.arr q.arr)
+
+theorem inv_mkAtoms_views {κ : Nat → String} {s : State} (h : InvK κ s) (views : List PropRef)
+    (hviews : ViewsOK κ s views) :
+    Post (mkAtoms none ((views.find? (fun p => p.key == "atype")).map (fun p => Src.arr p.arr))
+      ((views.find? (fun p => p.key == "pos")).map (fun p => Src.arr p.arr))
+      ((views.filter (fun p => p.key != "atype" && p.key != "pos")).map (fun p => (p.key, Src.arr p.arr)))) s
+      (Made κ s) := by
+  apply inv_mkAtoms h
+  · intro a ha
+    cases hf : views.find? (fun p => p.key == "atype") with
+    | none => simp [hf] at ha
+    | some q =>
+      simp [hf] at ha; subst ha
+      have hk : q.key = "atype" := by simpa using List.find?_some hf
+      have := hviews q (List.mem_of_find?_eq_some hf)
+      rw [hk] at this; exact this
+  · intro a ha
+    cases hf : views.find? (fun p => p.key == "pos") with
+    | none => simp [hf] at ha
+    | some q =>
+      simp [hf] at ha; subst ha
+      have hk : q.key = "pos" := by simpa using List.find?_some hf
+      have := hviews q (List.mem_of_find?_eq_some hf)
+      rw [hk] at this; exact this
+  · intro kv hkv
+    simp only [List.mem_map, List.mem_filter] at hkv
+    obtain ⟨q, ⟨hq, _⟩, rfl⟩ := hkv
+    exact hviews q hq
+
+theorem inv_getItem {κ : Nat → String} {s : State} (h : InvK κ s) (o : Nat) (ix : Index) :
+    Post (getItem o ix) s (Made κ s) := by
+  unfold getItem
+  rw [post_atomic, post_bind_getS]
+  simp only []
+  rw [post_bind_liftE]
+  cases hres : resolve (s.obj o).natoms (atomsIndex ix) with
+  | error e => exact Made.error h e
+  | ok sel =>
+    simp only []
+    obtain ⟨hpos, _⟩ := resolve_ok _ _ _ hres
+    rw [post_bind]
+    have hloop := post_mapEach_ghost (s.obj o).props
+      (fun p => do
+        let a ← indexGet p.arr sel
+        pure (⟨p.key, a⟩ : PropRef))
+      (fun g st => InvK g st ∧ Ext κ s g st ∧ st.objs = s.objs ∧ st.syss = s.syss)
+      (fun p q g st => SrcOK g st q.key (.arr q.arr))
+      Ext (fun g st => Ext.refl g st) (fun _ _ _ _ _ _ h1 h2 => h1.trans h2)
+      (fun _ _ _ _ _ _ hr he => hr.mono he)
+      (by
+        intro p hp g st ⟨hg, hge, hgo, hgs⟩
+        have hp0 := h.obj_props o p hp
+        rw [post_bind]
+        apply Post.mono (inv_indexGet hg p.arr sel p.key (hp0.valid.mono hge.le)
+          ((hge.agree _ hp0.valid.1).trans hp0.key) (by rw [hp0.len]; exact hpos))
+        intro r st' ⟨g', hg', hge', hgo', hgs', hq⟩
+        cases r with
+        | error e => exact ⟨g', ⟨hg', hge.trans hge', by rw [hgo', hgo], by rw [hgs', hgs]⟩, hge', fun c hc => by cases hc⟩
+        | ok a =>
+          simp only []
+          rw [post_pure]
+          refine ⟨g', ⟨hg', hge.trans hge', by rw [hgo', hgo], by rw [hgs', hgs]⟩, hge', ?_⟩
+          intro c hc
+          have : c = ⟨p.key, a⟩ := by
+            have : (Except.ok ⟨p.key, a⟩ : Except Err PropRef) = .ok c := hc
+            injection this with this; exact this.symm
+          subst this
+          obtain ⟨h1, h2, _⟩ := hq a rfl
+          exact ⟨h1, h2⟩)
+      κ s ⟨h, Ext.refl κ s, rfl, rfl⟩
+    apply Post.mono hloop
+    intro r s1 ⟨κ1, ⟨hinv1, hext1, hobjs1, hsys1⟩, _, hall⟩
+    cases r with
+    | error e => exact Made.error h e
+    | ok views =>
+      simp only []
+      have hviews : ViewsOK κ1 s1 views := by
+        intro q hq
+        obtain ⟨p, _, hr⟩ := (hall views rfl).mem_right q hq
+        exact hr
+      apply Post.mono (inv_mkAtoms_views hinv1 views hviews)
+      intro r s2 hm
+      cases r with
+      | error e => exact Made.error h e
+      | ok o' => exact Made.after hext1 (by rw [hobjs1]) hsys1 hm
+
+/-! ### `__deepcopy__` -/
+
+theorem inv_deepcopy {κ : Nat → String} {s : State} (h : InvK κ s) (o : Nat) :
+    Post (deepcopy o) s (Made κ s) := by
+  unfold deepcopy
+  rw [post_atomic, post_bind_getS]
+  simp only []
+  rw [post_bind]
+  have hloop := post_mapEach_ghost (s.obj o).props
+    (fun p => do
+      let a ← alloc (arrDt s p.arr) (arrTrail s p.arr) (arrRows s p.arr)
+      pure (⟨p.key, a⟩ : PropRef))
+    (fun g st => InvK g st ∧ Ext κ s g st ∧ st.objs = s.objs ∧ st.syss = s.syss)
+    (fun p q g st => SrcOK g st q.key (.arr q.arr))
+    Ext (fun g st => Ext.refl g st) (fun _ _ _ _ _ _ h1 h2 => h1.trans h2)
+    (fun _ _ _ _ _ _ hr he => hr.mono he)
+    (by
+      intro p hp g st ⟨hg, hge, hgo, hgs⟩
+      have hp0 := h.obj_props o p hp
+      rw [post_bind]
+      apply Post.of_eq _ _ (alloc_eq _ _ _ st)
+      simp only []
+      rw [post_pure]
+      have hbuf : BufOK ⟨arrDt s p.arr, arrTrail s p.arr, arrRows s p.arr⟩ := arrRows_bufOK h hp0.valid
+      obtain ⟨hinv1, hext1⟩ := inv_alloc hg _ hbuf p.key
+      refine ⟨_, ⟨hinv1, hge.trans hext1, hgo, hgs⟩, hext1, ?_⟩
+      intro c hc
+      have : c = ⟨p.key, ⟨st.heap.length, List.range (arrRows s p.arr).length⟩⟩ := by
+        have : (Except.ok ⟨p.key, ⟨st.heap.length, List.range (arrRows s p.arr).length⟩⟩ : Except Err PropRef) = .ok c := hc
+        injection this with this; exact this.symm
+      subst this
+      refine ⟨⟨by simp, ?_⟩, by simp [upd]⟩
+      intro i hi
+      rw [buf_append_eq]
+      simpa using hi)
+    κ s ⟨h, Ext.refl κ s, rfl, rfl⟩
+  apply Post.mono hloop
+  intro r s1 ⟨κ1, ⟨hinv1, hext1, hobjs1, hsys1⟩, _, hall⟩
+  cases r with
+  | error e => exact Made.error h e
+  | ok views =>
+    simp only []
+    have hviews : ViewsOK κ1 s1 views := by
+      intro q hq
+      obtain ⟨p, _, hr⟩ := (hall views rfl).mem_right q hq
+      exact hr
+    apply Post.mono (inv_mkAtoms_views hinv1 views hviews)
+    intro r s2 hm
+    cases r with
+    | error e => exact Made.error h e
+    | ok o' => exact Made.after hext1 (by rw [hobjs1]) hsys1 hm
+
+/-! ### `__setitem__` -/
+
+/-- invariant of the loops that only write into existing buffers. -/
+def Writes (κ : Nat → String) (s st : State) : Prop :=
+  InvK κ st ∧ Ext κ s κ st ∧ st.objs = s.objs ∧ st.syss = s.syss
+
+theorem Writes.kept {κ : Nat → String} {s st : State} (h : Writes κ s st) : Kept κ s st :=
+  ⟨κ, h.1, h.2.1, by rw [h.2.2.1], h.2.2.2⟩
+
+theorem Writes.step {κ : Nat → String} {s st st' : State} (h : Writes κ s st)
+    (h' : InvK κ st' ∧ Ext κ st κ st' ∧ st'.objs = st.objs ∧ st'.syss = st.syss) : Writes κ s st' :=
+  ⟨h'.1, h.2.1.trans h'.2.1, by rw [h'.2.2.1, h.2.2.1], by rw [h'.2.2.2, h.2.2.2]⟩
+
+theorem inv_setItem_loop {κ : Nat → String} {s : State} (h : InvK κ s) (o src : Nat) (sel : Sel) (hsel : SelOK sel) :
+    ∀ st, Writes κ s st → Post (forEach (s.obj o).props (fun p => do
+      let s' ← getS
+      let a ← keyErr ((s'.obj src).find p.key)
+      assign p.arr sel (arrVal s' a))) st (fun _ st' => Writes κ s st') := by
+  apply post_forEach
+  intro p hp st hw
+  have hp0 := h.obj_props o p hp
+  rw [post_bind_getS, post_bind_keyErr]
+  split
+  · rename_i a hfind
+    have hd := hw.1.find_ok src p.key a hfind
+    apply Post.mono (inv_assign hw.1 p.arr sel (arrVal st a) hsel ?_)
+    · intro r st' h'
+      exact hw.step h'
+    · intro hκ
+      right
+      have hka : p.key = "atype" := hp0.key.symm.trans hκ
+      exact arrVal_ge1 (hd.atype hka)
+  · exact hw
+
+theorem inv_setItem {κ : Nat → String} {s : State} (h : InvK κ s) (o : Nat) (ix : Index) (src : Nat) :
+    Post (setItem o ix src) s (fun _ s' => Kept κ s s') := by
+  unfold setItem
+  rw [post_bind_getS]
+  simp only []
+  split
+  · exact Kept.refl h
+  · rw [post_bind_liftE]
+    cases hres : resolve (s.obj o).natoms (atomsIndex ix) with
+    | error e => exact Kept.refl h
+    | ok sel =>
+      simp only []
+      obtain ⟨_, hsel⟩ := resolve_ok _ _ _ hres
+      split
+      · exact Kept.refl h
+      · apply Post.mono (inv_setItem_loop h o src sel hsel s ⟨h, Ext.refl κ s, rfl, rfl⟩)
+        intro r s' hw
+        exact hw.kept
+
+/-! ### reads: `natypes`, `prop(key…)` -/
+
+theorem foldl_max_ge (xs : List Rat) (x : Rat) :
+    (∀ y ∈ x :: xs, y ≤ xs.foldl (fun m y => if m < y then y else m) x) := by
+  induction xs generalizing x with
+  | nil => intro y hy; simp at hy; subst hy; simp [Rat.le_refl]
+  | cons z t ih =>
+    intro y hy
+    simp only [List.foldl_cons]
+    by_cases hz : x < z
+    · simp only [hz, if_true]
+      have := ih z
+      simp only [List.mem_cons] at hy
+      rcases hy with rfl | rfl | hy
+      · exact Rat.le_trans (Rat.le_of_lt hz) (this z (by simp))
+      · exact this y (by simp)
+      · exact this y (by simp [hy])
+    · simp only [hz, if_false]
+      have := ih x
+      simp only [List.mem_cons] at hy
+      rcases hy with rfl | rfl | hy
+      · exact this y (by simp)
+      · exact Rat.le_trans (Rat.not_lt.mp hz) (this x (by simp))
+      · exact this y (by simp [hy])
+
+theorem listMax_ge (l : List Rat) (m : Rat) (h : listMax l = some m) : ∀ y ∈ l, y ≤ m := by
+  cases l with
+  | nil => simp [listMax] at h
+  | cons x xs =>
+    simp only [listMax, Option.some.injEq] at h
+    subst h
+    exact foldl_max_ge xs x
+
+/-- what a normal return of `natypes` tells. -/
+def NatypesRes (s : State) (o : Nat) (nt : Nat) : Prop :=
+  ∃ a nums mn mx, (s.obj o).find "atype" = some a ∧ (arrVal s a).data.mapM Cell.num? = some nums ∧
+    listMin nums = some mn ∧ listMax nums = some mx ∧ ¬ mn < 1 ∧ nt = (truncRat mx).toNat
+
+theorem natypes_post (o : Nat) (s : State) :
+    Post (natypes o) s (fun r s' => s' = s ∧ ∀ nt, r = .ok nt → NatypesRes s o nt) := by
+  unfold natypes
+  rw [post_bind_getS, post_bind_keyErr]
+  split
+  · rename_i a hfind
+    split
+    · exact ⟨rfl, fun nt h => by cases h⟩
+    · rename_i nums hnums
+      split
+      · rename_i mn mx hmn hmx
+        split
+        · exact ⟨rfl, fun nt h => by cases h⟩
+        · rename_i hlt
+          refine ⟨rfl, ?_⟩
+          intro nt hnt
+          have : (truncRat mx).toNat = nt := by
+            have : (Except.ok (truncRat mx).toNat : Except Err Nat) = .ok nt := hnt
+            injection this
+          exact ⟨a, nums, mn, mx, hfind, hnums, hmn, hmx, hlt, this.symm⟩
+      · exact ⟨rfl, fun nt h => by cases h⟩
+  · exact ⟨rfl, fun nt h => by cases h⟩
+
+theorem propGet_post (o : Nat) (key : String) (ix : Option Index) (s : State) :
+    Post (propGet o key ix) s (fun _ s' => s' = s) := by
+  unfold propGet
+  rw [post_bind_getS, post_bind_keyErr]
+  split
+  · split
+    · rfl
+    · rw [post_bind_liftE]
+      split
+      · simp only []
+        split <;> rfl
+      · rfl
+  · rfl
+
+/-! ### `prop(key, value=…)`, `prop(key, index, value)` -/
+
+theorem atypeGuard_cases (key : String) (v : Val) :
+    (∃ e, atypeGuard key v = fail e) ∨
+    (atypeGuard key v = pure () ∧ (key = "atype" → ∀ c ∈ v.data, CellGE1 c)) := by
+  unfold atypeGuard
+  split
+  · rename_i hc
+    split
+    · left; exact ⟨_, rfl⟩
+    · rename_i nums hnums
+      split
+      · rename_i m hm
+        split
+        · left; exact ⟨_, rfl⟩
+        · rename_i hlt
+          right
+          exact ⟨rfl, fun _ => cells_ge1_of_min _ _ _ hnums hm hlt⟩
+      · rename_i hm
+        -- listMin of a non-empty list is defined
+        right
+        refine ⟨rfl, fun _ c _ => ?_⟩
+        exfalso
+        have hlen := (mapM_option _ _ _ hnums).1
+        cases nums with
+        | nil =>
+          have : v.data = [] := List.eq_nil_of_length_eq_zero (by simpa using hlen.symm)
+          exact hc.2 this
+        | cons x xs => simp [listMin] at hm
+  · rename_i hc
+    right
+    refine ⟨rfl, ?_⟩
+    intro hk c hcm
+    by_cases hne : v.data = []
+    · rw [hne] at hcm; simp at hcm
+    · exact absurd ⟨hk, hne⟩ hc
+
+theorem inv_propSet {κ : Nat → String} {s : State} (h : InvK κ s) (o : Nat) (key : String) (ix : Option Index) (v : Val)
+    (hv : ValOK v) : Post (propSet o key ix v) s (fun _ s' => Kept κ s s') := by
+  unfold propSet
+  cases ix with
+  | none =>
+    simp only []
+    exact Post.mono (inv_viewSet h o key (.lit v) hv) (fun _ _ hq => hq.1)
+  | some ix =>
+    simp only []
+    rcases atypeGuard_cases key v with ⟨e, hg⟩ | ⟨hg, hguard⟩
+    · rw [hg, post_bind_fail]; exact Kept.refl h
+    rw [hg, post_bind_pure, post_bind_getS, post_bind_keyErr]
+    split
+    · rename_i a hfind
+      have hp := h.find_ok o key a hfind
+      rw [post_bind_liftE]
+      split
+      · rename_i sel hres
+        obtain ⟨_, hsel⟩ := resolve_ok _ _ _ hres
+        apply Post.mono (inv_assign h a sel v hsel ?_)
+        · intro r s' ⟨hinv, hext, hobjs, hsys⟩
+          exact ⟨κ, hinv, hext, by rw [hobjs], hsys⟩
+        · intro hκ
+          right
+          exact hguard (hp.key.symm.trans hκ)
+      · exact Kept.refl h
+    · exact Kept.refl h
+
+/-! ### `prop_atype` -/
+
+theorem truncRat_of_nonneg (r : Rat) (h : 0 ≤ r) : truncRat r = r.floor := by
+  unfold truncRat; simp [h]
+
+/-- the per-type table of `prop_atype(key, value)` looked up by every atom's type is a well-formed
+    per-atom literal. -/
+theorem picked_ok {κ : Nat → String} {s : State} (h : InvK κ s) (o : Nat) (ta : Arr)
+    (hfind : (s.obj o).find "atype" = some ta) (v : Val) (hv : ValOK v) (nv : Nat) (trail : List Nat)
+    (hs : v.shape = nv :: trail) (nt : Nat) (hnt : NatypesRes s o nt) (hnv : ¬ nv < nt)
+    (hdt : arrDt s ta = .int) (htr : arrTrail s ta = []) :
+    ValOK ⟨v.dt, ta.idx.length :: trail, ((arrVal s ta).data.map (fun c => match c with
+        | .int i => (rowsOf nv (prod trail) v.data)[(i - 1).toNat]?.getD []
+        | _ => [])).flatten⟩ := by
+  have hp := h.find_ok o "atype" ta hfind
+  have hvalid := hp.valid
+  have hb := h.buf_ok ta.buf
+  obtain ⟨a, nums, mn, mx, hfa, hnums, hmn, hmx, hlt, hnteq⟩ := hnt
+  have hata : a = ta := by rw [hfind] at hfa; injection hfa with hfa; exact hfa.symm
+  subst hata
+  have hvlen : v.data.length = nv * prod trail := by rw [hv.1, hs]; rfl
+  -- every exposed row of atype is a single int cell
+  have hrow1 : ∀ r ∈ arrRows s a, r.length = 1 := by
+    intro r hr
+    obtain ⟨i, _, _, hmem⟩ := arrRows_mem hvalid r hr
+    have := hb.width r hmem
+    simp only [arrTrail] at htr
+    rw [htr] at this; simpa [prod] using this
+  have hdlen : (arrVal s a).data.length = a.idx.length := by
+    simp only [arrVal]
+    rw [flatten_length_const _ 1 hrow1]
+    simp [arrRows]
+  -- every cell: an int `i` with `1 ≤ i ≤ nt`
+  have hcell : ∀ c ∈ (arrVal s a).data, ∃ i : Int, c = .int i ∧ (i - 1).toNat < nv := by
+    intro c hc
+    have htyped : c.hasType .int = true := by
+      have := (arrVal_ok h hvalid).2 c hc
+      simpa [arrVal, hdt] using this
+    cases c with
+    | int i =>
+      refine ⟨i, rfl, ?_⟩
+      obtain ⟨q, hq, hcq⟩ := mapM_option_fwd _ _ _ hnums _ hc
+      simp only [Cell.num?, Option.some.injEq] at hcq
+      subst hcq
+      have h1 : (1 : Rat) ≤ (i : Rat) := Rat.le_trans (Rat.not_lt.mp hlt) (listMin_le _ _ hmn _ hq)
+      have h2 : (i : Rat) ≤ mx := listMax_ge _ _ hmx _ hq
+      have hmx0 : (0 : Rat) ≤ mx := Rat.le_trans (Rat.le_trans (by decide) h1) h2
+      have hfl : i ≤ mx.floor := Rat.le_floor_iff.mpr h2
+      have hi1 : (1 : Int) ≤ i := by exact_mod_cast h1
+      rw [truncRat_of_nonneg mx hmx0] at hnteq
+      omega
+    | flt r => simp [Cell.hasType] at htyped
+    | bool b => simp [Cell.hasType] at htyped
+    | str s => simp [Cell.hasType] at htyped
+  have hpick : ∀ r ∈ (arrVal s a).data.map (fun c => match c with
+        | .int i => (rowsOf nv (prod trail) v.data)[(i - 1).toNat]?.getD []
+        | _ => []), r ∈ rowsOf nv (prod trail) v.data := by
+    intro r hr
+    simp only [List.mem_map] at hr
+    obtain ⟨c, hc, rfl⟩ := hr
+    obtain ⟨i, rfl, hi⟩ := hcell c hc
+    simp only []
+    have : (i - 1).toNat < (rowsOf nv (prod trail) v.data).length := by rw [rowsOf_length]; exact hi
+    rw [List.getElem?_eq_getElem this, Option.getD_some]
+    exact List.getElem_mem this
+  constructor
+  · simp only [prod]
+    rw [flatten_length_const _ (prod trail) (fun r hr => rowsOf_width _ _ _ r (hpick r hr))]
+    simp [hdlen]
+  · intro c hc
+    simp only [List.mem_flatten] at hc
+    obtain ⟨r, hr, hcr⟩ := hc
+    exact hv.2 c (rowsOf_mem _ _ _ hvlen r (hpick r hr) c hcr)
+
+theorem zeroCell_typed (dt : DType) : (zeroCell dt).hasType dt = true := by
+  cases dt <;> simp [zeroCell, Cell.hasType]
+
+theorem zerosLike_ok (v : Val) : ValOK (zerosLike v) := by
+  constructor
+  · simp [zerosLike]
+  · intro c hc
+    simp only [zerosLike, List.mem_replicate] at hc
+    rw [hc.2]
+    exact zeroCell_typed v.dt
+
+theorem Kept.trans {κ κ1 : Nat → String} {s s1 s2 : State} (hext : Ext κ s κ1 s1)
+    (hobjs : s1.objs.length = s.objs.length) (hsys : s1.syss = s.syss) (h2 : Kept κ1 s1 s2) : Kept κ s s2 := by
+  obtain ⟨κ2, hinv2, hext2, hobjs2, hsys2⟩ := h2
+  exact ⟨κ2, hinv2, hext.trans hext2, by rw [hobjs2, hobjs], by rw [hsys2, hsys]⟩
+
+theorem inv_propAtype {κ : Nat → String} {s : State} (h : InvK κ s) (o : Nat) (key : String) (v : Val)
+    (t : Option Int) (hv : ValOK v) : Post (propAtype o key v t) s (fun _ s' => Kept κ s s') := by
+  unfold propAtype
+  rw [post_bind_getS, post_bind_keyErr]
+  split
+  · rename_i ta hfind
+    cases t with
+    | none =>
+      simp only []
+      split
+      · exact Kept.refl h
+      · rename_i nv trail hshape
+        rw [post_bind]
+        apply Post.mono (natypes_post o s)
+        intro r s1 ⟨hs1, hres⟩
+        subst hs1
+        cases r with
+        | error e => exact Kept.refl h
+        | ok nt =>
+          simp only []
+          split
+          · exact Kept.refl h
+          · rename_i hnv
+            split
+            · exact Kept.refl h
+            · rename_i hcond
+              have hdt : arrDt s1 ta = .int := by
+                by_cases hd : arrDt s1 ta = .int
+                · exact hd
+                · exact absurd (Or.inl hd) hcond
+              have htr : arrTrail s1 ta = [] := by
+                by_cases hd : arrTrail s1 ta = []
+                · exact hd
+                · exact absurd (Or.inr hd) hcond
+              have hlit := picked_ok h o ta hfind v hv nv trail hshape nt (hres nt rfl) hnv hdt htr
+              exact Post.mono (inv_viewSet h o key _ hlit) (fun _ _ hq => hq.1)
+    | some t =>
+      simp only []
+      rw [post_bind]
+      apply Post.mono (natypes_post o s)
+      intro r s1 ⟨hs1, hres⟩
+      subst hs1
+      cases r with
+      | error e => exact Kept.refl h
+      | ok nt =>
+        simp only []
+        split
+        · exact Kept.refl h
+        · split
+          · exact Kept.refl h
+          · rw [post_bind]
+            -- the optional creation of the column
+            have hstep : Post (match (s1.obj o).find key with
+                | some _ => pure ()
+                | none => viewSet o key (.lit (zerosLike v)) : M Unit) s1 (fun _ s2 => Kept κ s1 s2) := by
+              split
+              · exact Kept.refl h
+              · exact Post.mono (inv_viewSet h o key _ (zerosLike_ok v)) (fun _ _ hq => hq.1)
+            apply Post.mono hstep
+            intro r s2 hk2
+            cases r with
+            | error e => exact hk2
+            | ok u =>
+              simp only []
+              obtain ⟨κ2, hinv2, hext2, hobjs2, hsys2⟩ := hk2
+              rcases atypeGuard_cases key v with ⟨e, hg⟩ | ⟨hg, hguard⟩
+              · rw [hg, post_bind_fail]; exact ⟨κ2, hinv2, hext2, hobjs2, hsys2⟩
+              rw [hg, post_bind_pure, post_bind_getS, post_bind_keyErr]
+              split
+              · rename_i a hfa
+                have hp := hinv2.find_ok o key a hfa
+                rw [post_bind_keyErr]
+                split
+                · apply Post.mono (inv_assign hinv2 a _ v (fun hc => by simp at hc) ?_)
+                  · intro r s3 ⟨hinv3, hext3, hobjs3, hsys3⟩
+                    exact Kept.trans hext2 hobjs2 hsys2 ⟨κ2, hinv3, hext3, by rw [hobjs3], hsys3⟩
+                  · intro hκ
+                    right
+                    exact hguard (hp.key.symm.trans hκ)
+                · exact ⟨κ2, hinv2, hext2, hobjs2, hsys2⟩
+              · exact ⟨κ2, hinv2, hext2, hobjs2, hsys2⟩
+  · exact Kept.refl h
+
+/-! ### `extend` -/
+
+theorem zeros_ok (dt : DType) (n : Nat) (tr : List Nat) :
+    ValOK ⟨dt, n :: tr, List.replicate (n * prod tr) (zeroCell dt)⟩ := by
+  constructor
+  · simp [prod]
+  · intro c hc
+    simp only [List.mem_replicate] at hc
+    rw [hc.2]; exact zeroCell_typed dt
+
+/-- a constructor call followed by steps that create no object. -/
+theorem Made.extend {κ κ1 κ2 : Nat → String} {s s1 s2 : State} {o : Nat} (hext1 : Ext κ s κ1 s1)
+    (hsys1 : s1.syss = s.syss) (ho : o = s.objs.length) (hlen1 : s1.objs.length = s.objs.length + 1)
+    (hat1 : ((s1.obj o).find "atype").isSome) (hinv2 : InvK κ2 s2) (hext2 : Ext κ1 s1 κ2 s2)
+    (hlen2 : s2.objs.length = s1.objs.length) (hsys2 : s2.syss = s1.syss) : Made κ s (.ok o) s2 := by
+  refine ⟨κ2, hinv2, hext1.trans hext2, by rw [hsys2, hsys1], ?_, ?_⟩
+  · intro e he; cases he
+  · intro o' ho'
+    have : o' = o := by
+      have : (Except.ok o : Except Err Nat) = .ok o' := ho'
+      injection this with this; exact this.symm
+    subst this
+    refine ⟨ho, by rw [hlen2, hlen1], ?_⟩
+    have hlt : o' < s1.objs.length := by omega
+    cases hf : (s1.obj o').find "atype" with
+    | none => simp [hf] at hat1
+    | some a => rw [(hext2.le.obj _ hlt).2 "atype" a hf]; rfl
+
+theorem find_persists {s s' : State} (hle : Le s s') (o : Nat) (key : String)
+    (h : ((s.obj o).find key).isSome) : ((s'.obj o).find key).isSome := by
+  by_cases ho : o < s.objs.length
+  · cases hf : (s.obj o).find key with
+    | none => simp [hf] at h
+    | some a => rw [(hle.obj o ho).2 key a hf]; rfl
+  · rw [obj_ge s o (Nat.le_of_not_lt ho)] at h
+    simp [AtomsObj.find, emptyObj] at h
+
+theorem inv_extendWith {κ : Nat → String} {s : State} (h : InvK κ s) (o donor : Nat)
+    (hdon : ((s.obj donor).find "atype").isSome) : Post (extendWith o donor) s (Made κ s) := by
+  unfold extendWith
+  rw [post_atomic, post_bind_getS]
+  simp only []
+  rw [post_bind]
+  apply Post.mono (inv_getItem h o _)
+  intro r s1 hm1
+  cases r with
+  | error e => exact Made.error h e
+  | ok nw =>
+    simp only []
+    obtain ⟨κ1, hinv1, hext1, hsys1, _, hok1⟩ := hm1
+    obtain ⟨hnw, hlen1, hat1⟩ := hok1 nw rfl
+    rw [post_bind]
+    -- "Create empty values for atoms.props not in newatoms"
+    have hloop1 := post_forEach_ghost (s.obj donor).props
+      (fun p => do
+        let s1 ← getS
+        if ((s1.obj nw).find p.key).isSome then pure () else
+        if p.arr.idx = [] then fail .index else
+        let tr := arrTrail s1 p.arr
+        let dt := arrDt s1 p.arr
+        viewSet nw p.key (.lit ⟨dt, ((s.obj o).natoms + (s.obj donor).natoms) :: tr,
+          List.replicate (((s.obj o).natoms + (s.obj donor).natoms) * prod tr) (zeroCell dt)⟩))
+      (fun g st => InvK g st ∧ Ext κ1 s1 g st ∧ st.objs.length = s1.objs.length ∧ st.syss = s1.syss)
+      Ext (fun g st => Ext.refl g st) (fun _ _ _ _ _ _ h1 h2 => h1.trans h2)
+      (by
+        intro p hp g st ⟨hg, hge, hgl, hgs⟩
+        rw [post_bind_getS]
+        split
+        · exact ⟨g, ⟨hg, hge, hgl, hgs⟩, Ext.refl g st⟩
+        · split
+          · exact ⟨g, ⟨hg, hge, hgl, hgs⟩, Ext.refl g st⟩
+          · simp only []
+            apply Post.mono (inv_viewSet hg nw p.key (.lit _) (zeros_ok _ _ _))
+            intro r st' ⟨⟨g', hg', hge', hgl', hgs'⟩, _⟩
+            exact ⟨g', ⟨hg', hge.trans hge', by rw [hgl', hgl], by rw [hgs', hgs]⟩, hge'⟩)
+      κ1 s1 ⟨hinv1, Ext.refl κ1 s1, rfl, rfl⟩
+    apply Post.mono hloop1
+    intro r s2 ⟨κ2, ⟨hinv2, hext2, hlen2, hsys2⟩, _⟩
+    cases r with
+    | error e => exact Made.error h e
+    | ok u =>
+      simp only []
+      rw [post_bind_getS, post_bind]
+      -- "Copy values to the extra atoms in newatoms"
+      have hdon2 : ((s2.obj donor).find "atype").isSome := find_persists (hext1.le.trans hext2.le) donor _ hdon
+      have hloop2 : Post (forEach (s2.obj nw).props (fun p => do
+          let s3 ← getS
+          let sel : Sel := { pos := sliceSel ((s.obj o).natoms + (s.obj donor).natoms) (some ((s.obj o).natoms : Int)) none 1,
+                             view := true, scalar := false }
+          match (s3.obj donor).find p.key with
+          | some da => assign p.arr sel (arrVal s3 da)
+          | none =>
+            match (s3.obj o).find p.key with
+            | none => fail .key
+            | some sa =>
+              if sa.idx = [] then fail .index else
+              let tr := arrTrail s3 sa
+              let dt := arrDt s3 sa
+              assign p.arr sel ⟨dt, (s.obj donor).natoms :: tr, List.replicate ((s.obj donor).natoms * prod tr) (zeroCell dt)⟩))
+          s2 (fun _ st => Writes κ2 s2 st) := by
+        apply post_forEach _ _ (fun st => Writes κ2 s2 st) _ s2 ⟨hinv2, Ext.refl κ2 s2, rfl, rfl⟩
+        intro p hp st hw
+        have hp0 := hinv2.obj_props nw p hp
+        rw [post_bind_getS]
+        simp only []
+        split
+        · rename_i da hfd
+          have hd := hw.1.find_ok donor p.key da hfd
+          apply Post.mono (inv_assign hw.1 p.arr _ (arrVal st da) (fun hc => by simp at hc) ?_)
+          · intro r st' h'
+            exact hw.step h'
+          · intro hκ
+            right
+            exact arrVal_ge1 (hd.atype (hp0.key.symm.trans hκ))
+        · rename_i hfd
+          split
+          · exact hw
+          · split
+            · exact hw
+            · apply Post.mono (inv_assign hw.1 p.arr _ _ (fun hc => by simp at hc) ?_)
+              · intro r st' h'
+                exact hw.step h'
+              · intro hκ
+                -- the donor has an `atype` column, so this branch is not taken for `atype`
+                exfalso
+                have hka : p.key = "atype" := hp0.key.symm.trans hκ
+                have := find_persists hw.2.1.le donor "atype" hdon2
+                rw [← hka, hfd] at this
+                simp at this
+      apply Post.mono hloop2
+      intro r s3 hw
+      cases r with
+      | error e => exact Made.error h e
+      | ok u =>
+        simp only []
+        rw [post_pure]
+        exact Made.extend hext1 hsys1 hnw hlen1 hat1 hw.1 (hext2.trans hw.2.1)
+          (by rw [hw.2.2.1, hlen2]) (by rw [hw.2.2.2, hsys2])
+
+/-! ### composition: `Good` -/
+
+/-- between operations every object has an `atype` property (`Atoms.__init__` always sets it). -/
+def Boundary (s : State) : Prop := ∀ o, o < s.objs.length → ((s.obj o).find "atype").isSome
+
+/-- the invariant is re-established (for an extension of the ghost) and the boundary condition kept. -/
+def Good (κ : Nat → String) (s s' : State) : Prop :=
+  ∃ κ', InvK κ' s' ∧ Ext κ s κ' s' ∧ (Boundary s → Boundary s')
+
+theorem Good.refl {κ : Nat → String} {s : State} (h : InvK κ s) : Good κ s s := ⟨κ, h, Ext.refl κ s, id⟩
+
+theorem Boundary.of_le {s s' : State} (hb : Boundary s) (hle : Le s s') (hlen : s'.objs.length = s.objs.length) :
+    Boundary s' := by
+  intro o ho
+  exact find_persists hle o _ (hb o (by omega))
+
+theorem Good.of_kept {κ : Nat → String} {s s' : State} (h : Kept κ s s') : Good κ s s' := by
+  obtain ⟨κ', hinv, hext, hlen, _⟩ := h
+  exact ⟨κ', hinv, hext, fun hb => hb.of_le hext.le hlen⟩
+
+theorem Made.boundary {κ : Nat → String} {s s' : State} {r : Except Err Nat} (h : Made κ s r s') :
+    Boundary s → Boundary s' := by
+  obtain ⟨κ', hinv, hext, _, herr, hok⟩ := h
+  intro hb
+  cases r with
+  | error e => rw [herr e rfl]; exact hb
+  | ok o =>
+    obtain ⟨ho, hlen, hat⟩ := hok o rfl
+    intro o' ho'
+    by_cases hlt : o' < s.objs.length
+    · exact find_persists hext.le o' _ (hb o' hlt)
+    · have : o' = o := by omega
+      rw [this]; exact hat
+
+theorem Kept.boundary {κ : Nat → String} {s s' : State} (h : Kept κ s s') : Boundary s → Boundary s' := by
+  obtain ⟨κ', hinv, hext, hlen, _⟩ := h
+  exact fun hb => hb.of_le hext.le hlen
+
+theorem Good.of_made {κ : Nat → String} {s s' : State} {r : Except Err Nat} (h : Made κ s r s') : Good κ s s' := by
+  have hbd := h.boundary
+  obtain ⟨κ', hinv, hext, _, herr, hok⟩ := h
+  exact ⟨κ', hinv, hext, hbd⟩
+
+theorem Good.trans {κ κ1 : Nat → String} {s s1 s2 : State} (hext : Ext κ s κ1 s1) (hb : Boundary s → Boundary s1)
+    (h2 : Good κ1 s1 s2) : Good κ s s2 := by
+  obtain ⟨κ2, hinv2, hext2, hb2⟩ := h2
+  exact ⟨κ2, hinv2, hext.trans hext2, fun h => hb2 (hb h)⟩
+
+theorem Made.lt {κ : Nat → String} {s s' : State} {o : Nat} (h : Made κ s (.ok o) s') : o < s'.objs.length := by
+  obtain ⟨_, _, _, _, _, hok⟩ := h
+  obtain ⟨h1, h2, _⟩ := hok o rfl
+  omega
+
+/-- post-condition of the operations that return a new `Atoms`. -/
+def GoodObj (κ : Nat → String) (s : State) (r : Except Err Nat) (s' : State) : Prop :=
+  Good κ s s' ∧ ∀ o, r = .ok o → o < s'.objs.length ∧ ((s'.obj o).find "atype").isSome
+
+theorem GoodObj.of_made {κ : Nat → String} {s s' : State} {r : Except Err Nat} (h : Made κ s r s') :
+    GoodObj κ s r s' := by
+  refine ⟨Good.of_made h, ?_⟩
+  intro o ho
+  subst ho
+  refine ⟨h.lt, ?_⟩
+  obtain ⟨_, _, _, _, _, hok⟩ := h
+  exact (hok o rfl).2.2
+
+theorem GoodObj.error {κ : Nat → String} {s : State} (h : InvK κ s) (e : Err) : GoodObj κ s (.error e) s :=
+  ⟨Good.refl h, fun o ho => by cases ho⟩
+
+theorem inv_extendInt {κ : Nat → String} {s : State} (h : InvK κ s) (o : Nat) (n : Int) :
+    Post (extendInt o n) s (GoodObj κ s) := by
+  unfold extendInt
+  rw [post_atomic, post_bind]
+  apply Post.mono (inv_mkAtoms h (some n) none none [] (fun a ha => by cases ha) (fun a ha => by cases ha)
+    (fun kv hkv => by simp at hkv))
+  intro r s1 hm1
+  cases r with
+  | error e => exact GoodObj.error h e
+  | ok d =>
+    simp only []
+    have hb1 := hm1.boundary
+    obtain ⟨κ1, hinv1, hext1, _, _, hok1⟩ := hm1
+    obtain ⟨_, _, hat1⟩ := hok1 d rfl
+    apply Post.mono (inv_extendWith hinv1 o d hat1)
+    intro r s2 hm2
+    cases r with
+    | error e => exact GoodObj.error h e
+    | ok o' =>
+      have := GoodObj.of_made hm2
+      exact ⟨Good.trans hext1 hb1 this.1, this.2⟩
+
+theorem inv_propGetAtoms {κ : Nat → String} {s : State} (h : InvK κ s) (o : Nat) (ix : Index) :
+    Post (propGetAtoms o ix) s (GoodObj κ s) := by
+  unfold propGetAtoms
+  rw [post_atomic, post_bind]
+  apply Post.mono (inv_getItem h o ix)
+  intro r s1 hm1
+  cases r with
+  | error e => exact GoodObj.error h e
+  | ok d =>
+    simp only []
+    have hb1 := hm1.boundary
+    obtain ⟨κ1, hinv1, hext1, _, _, _⟩ := hm1
+    apply Post.mono (inv_deepcopy hinv1 d)
+    intro r s2 hm2
+    cases r with
+    | error e => exact GoodObj.error h e
+    | ok o' =>
+      have := GoodObj.of_made hm2
+      exact ⟨Good.trans hext1 hb1 this.1, this.2⟩
+
+theorem inv_propSetAtoms {κ : Nat → String} {s : State} (h : InvK κ s) (o : Nat) (ix : Option Index) (src : Nat) :
+    Post (propSetAtoms o ix src) s (fun _ s' => Kept κ s s') := inv_setItem h o _ src
+
 end Atomman.C06
